@@ -134,6 +134,7 @@ impl Concretiser {
                     b
                 }
                 3 => base[..base.len() - 1].to_vec(),
+                4 => reencode(s["signer"]["alg"].as_str().unwrap(), &base),
                 f => panic!("unknown signature form {f}"),
             }
         };
@@ -171,5 +172,21 @@ pub fn malleate(alg: &str, sig: &[u8]) -> Vec<u8> {
             out
         }
         o => panic!("unknown algorithm {o}"),
+    }
+}
+
+/// the same signature value in another standard container
+pub fn reencode(alg: &str, sig: &[u8]) -> Vec<u8> {
+    match alg {
+        "p256" => {
+            let s = p256::ecdsa::Signature::from_der(sig).expect("der");
+            s.to_bytes().to_vec() // fixed-size r || s
+        }
+        _ => {
+            // DER OCTET STRING wrapping of the 64 bytes
+            let mut out = vec![0x04, sig.len() as u8];
+            out.extend_from_slice(sig);
+            out
+        }
     }
 }
